@@ -134,7 +134,7 @@ def _atom_case(E):
     E.fact('empty_string.atoms', formulas.formula('').atoms == {})
 
 
-EXPRS = ['n*f', 'f+g', 'n*(f+g)', 'n*f+g', 'n*(k*f)', 'f+=g', '(f+=g)+n*h', 'n*f+k*g+h', 'f+f', 'n*(f+=g)']
+EXPRS = ['n*f', 'f+g', 'n*(f+g)', 'n*f+g', 'n*(k*f)', 'f+=g', '(f+=g)+n*h', 'n*f+k*g+h', 'f+f', 'n*(f+=g)', 'n*(k*(f+g))+h', '(f+g)+(g+h)']
 
 
 def _ops(expr, sf, sg, sh_):
@@ -181,6 +181,10 @@ def _ops(expr, sf, sg, sh_):
             r, want, mutated = n * f2, sc(n, wf + wg), f
         elif expr == 'n*f+k*g+h':
             r, want = n * f + k * g + hh, sc(n, wf) + sc(k, wg) + wh
+        elif expr == 'n*(k*(f+g))+h':
+            r, want = n * (k * (f + g)) + hh, sc(n * k, wf + wg) + wh
+        elif expr == '(f+g)+(g+h)':
+            r, want = (f + g) + (g + hh), wf + wg + wg + wh
         check_formula(E, expr, r, want)
         for nm, x in (('f', f), ('g', g), ('h', hh)):
             if x is mutated:
